@@ -89,6 +89,7 @@ func registerSdkInt(p *Program) {
 			return TupleV{SdkIntV{Nil: true}, BoolV{B.False}}
 		}
 		neg, mag := x.decAtomParts(s.Atom)
+		x.linkMag(mag)
 		t := B.Ite(neg, B.Neg(B.Floor(mag)), B.Floor(mag))
 		over := B.Or(B.Gt(t, B.BigInt(max256)), B.Lt(t, B.BigInt(new(big.Int).Neg(max256))))
 		if x.Branch(over) {
@@ -185,7 +186,7 @@ func (x *Exec) validDenom(d StrV) *smt.Term {
 		return x.B.Bool(reDenom.MatchString(d.S))
 	}
 	if d.Atom == nil {
-		x.Unsupported("ValidateDenom on a content string")
+		return x.nfaMatch(reDenom.String(), d.Bytes)
 	}
 	return x.B.App("valid_sdk_denom", smt.SBool, d.Atom)
 }
